@@ -194,6 +194,25 @@ def case(R, res):
                     bad(f"prob_to_value({p!r}) = {v!r} outside [{spec['lo']}, {spec['hi']}]", "domain")
                 if not isint and spec["sampling"] == "linear" and not close(v, Fraction(p) * (hi - lo) + lo, 1e-12):
                     bad(f"prob_to_value({p!r}) = {v!r} != p*(max-min)+min", "domain")
+                if not isint and spec["sampling"] in ("log", "reverse_log"):
+                    # the formulas of Ktm/Continuous.lean, evaluated with 50 digits: min*(max/min)^p, max+min-min*(max/min)^(1-p)
+                    import decimal
+                    with decimal.localcontext() as ctx:
+                        ctx.prec = 50
+                        dlo, dhi = decimal.Decimal(spec["lo"]), decimal.Decimal(spec["hi"])
+                        dp = decimal.Decimal(Fraction(p).numerator) / decimal.Decimal(Fraction(p).denominator)
+                        if dlo == dhi:
+                            want = dlo
+                        elif spec["sampling"] == "log":
+                            want = dlo * ((dhi / dlo).ln() * dp).exp()
+                        else:
+                            want = dhi + dlo - dlo * ((dhi / dlo).ln() * (1 - dp)).exp()
+                        if abs(decimal.Decimal(v) - want) > decimal.Decimal("1e-9") * max(abs(want), decimal.Decimal(1)):
+                            bad(f"prob_to_value({p!r}) = {v!r} is not {spec['sampling']} sampling of [{spec['lo']}, {spec['hi']}] ({want:.12g})", "domain")
+                if not isint:
+                    back = hp.prob_to_value(hp.value_to_prob(v))
+                    if abs(back - v) > 1e-9 * max(1.0, abs(v)):
+                        bad(f"value {v!r} -> prob {hp.value_to_prob(v)!r} -> value {back!r}", "inverse")
                 if isint:
                     back = hp.prob_to_value(hp.value_to_prob(v))
                     if back != v:
